@@ -152,9 +152,11 @@ func GenValue(v reflect.Value, r *Rng, o GenOpts, tag reflect.StructTag) {
 			GenValue(s.Index(i), r, o, "")
 		}
 		v.Set(s)
+	case reflect.Uint8:
+		v.SetUint(uint64(r.Intn(256)))
 	case reflect.Array:
 		for i := 0; i < t.Len(); i++ {
-			v.Index(i).SetUint(uint64(r.Intn(256)))
+			GenValue(v.Index(i), r, o, "")
 		}
 	case reflect.Map:
 		n := r.Intn(o.MaxItems + 1)
